@@ -77,12 +77,81 @@ def main():
     n_long = 40 if tier == "quick" else 1500
     lsptrace.random_histories(rep, cov, tables, texts, n_long, maxlen=40, seed=vlib.SEED, kinds=("open", "change1"),
                               prop="C11")
+    # 6. positions: every single-fault unit of Unit.tla, laid out anew at random (so that faulty lexemes start in column
+    #    0, after CRLF, after several blanks ...), through the server and through `check`: same (code, line, column)
+    positions_clause(rep, cov, tier)
     cov["exhaustive"] = True
     cov["rule"] = ("every didOpen/didChange history up to length %d over 2 URIs x 5 texts (valid, lexical, syntax, semantic error, "
                    "depends-on-other), each in a fresh server process; + %d random histories of length <= 40" % (3 if tier == "quick" else 4, n_long))
     return rep.finish("model_checking", cov, assumptions=[
         "Diag(state,u) is measured on freshly started servers (twice); absolute correctness of diagnostics is C02/C03/C05",
         "diagnostics compared as sorted lists of (code, start line, start character)"])
+
+
+def relayout(text, rng):
+    toks = text.split()
+    out = [toks[0]]
+    for t in toks[1:]:
+        out.append(rng.choice([" ", " ", "\n", "\n", "\n   ", "\r\n", "  \n", "\n\n"]))
+        out.append(t)
+    return "".join(out) + "\n"
+
+
+def positions_clause(rep, cov, tier):
+    import tempfile
+    import shutil
+    from concurrent.futures import ThreadPoolExecutor
+    import lspdrv
+    import unitgen
+    r = vlib.tlc_check("Unit.tla", "MC_Unit_1.cfg", workers=4, name="c11_MC_Unit_1")
+    cov["states"] += r["states"]
+    cov["transitions"] += r["transitions"]
+    rng = random.Random(vlib.SEED + 11)
+    docs = []
+    for rec in r["replay"]:
+        if rec.get("R") != "unit":
+            continue
+        text, _ = unitgen.render(rec["unit"])
+        for _ in range(1 if tier == "quick" else 4):
+            docs.append((rec["edits"], relayout(text, rng)))
+    bs = 12
+    batches = [docs[i:i + bs] for i in range(0, len(docs), bs)]
+
+    def lsp_batch(b):
+        msgs = []
+        for i, (_, t) in enumerate(b):
+            msgs.append(lspdrv.m_open(lspdrv.URI[1], t, i + 1) if i == 0 else lspdrv.m_change(lspdrv.URI[1], [t], i + 1))
+        msgs += [lspdrv.m_shutdown(9000), lspdrv.M_EXIT]
+        res = lspdrv.run_server(msgs, timeout=120)
+        pubs = {o["v"]: o["diags"] for o in lspdrv.observe(res["frames"]) if o["k"] == "pub"}
+        return [pubs.get(i + 1) for i in range(len(b))]
+
+    def cli_one(doc):
+        d = tempfile.mkdtemp(prefix="vp_c11p_", dir=vlib.WORK)
+        try:
+            p = os.path.join(d, os.path.basename(lspdrv.URI[1]))
+            with open(p, "w", newline="") as f:
+                f.write(doc[1])
+            rr = vlib.run_cli(["check", p])
+            return sorted((c, ln - 1, col - 1) for c, f, ln, col in vlib.parse_cli_diags(rr["stderr"]) if f is not None)
+        finally:
+            shutil.rmtree(d, ignore_errors=True)
+
+    with ThreadPoolExecutor(max_workers=vlib.NCPU) as ex:
+        lsp = [x for b in ex.map(lsp_batch, batches) for x in b]
+        cli = list(ex.map(cli_one, docs))
+    n = 0
+    for (edits, text), a, b in zip(docs, lsp, cli):
+        if a is None:
+            rep.add("positions:no-publish", labels={"positions"}, detail={"edits": edits}, replay={"text": text})
+            continue
+        n += 1
+        got = sorted((d[0], d[1], d[2]) for d in a)
+        if got != b:
+            kind = "codes" if sorted(x[0] for x in got) != sorted(x[0] for x in b) else ("line" if [x[:2] for x in got] != [x[:2] for x in b] else "column")
+            rep.add("positions:lsp-differs-from-check:%s" % kind, labels={"positions"}, detail={"edits": edits, "lsp": got, "check": b},
+                    replay={"text": text})
+    cov["position_documents_compared"] = n
 
 
 def lspdrv_obs(res):
